@@ -675,6 +675,16 @@ func checkC05(c *Check) {
 		c.Hold("R8", "remoteDelivery."+m, r.FI.Decl.Pos(), !f && any, "a quarantined message can reach a sending call: "+r.F.Describe(path))
 	}
 	_ = info
+	// ---- R7: a TLSA lookup failure defers the delivery instead of silently switching DANE off – C13's rules on the
+	// discovery and on CheckConn, re-evaluated here because they are a clause of this property
+	c.Rule("R7", "a failed TLSA lookup (other than 'no such record') defers the delivery: the discovery returns the error, CheckConn turns it into a temporary failure (C13.R4 lookup-failure-defers, C13.R5)", 4)
+	sub := newCheck("C13", c.P, c.Tier)
+	checkC13(sub)
+	for _, o := range sub.obs {
+		if o.Rule == "R5" || (o.Rule == "R4" && strings.Contains(o.Key, "lookup-failure")) {
+			c.Hold("R7", o.Rule+":"+o.Key, o.posRaw, o.OK, o.Msg)
+		}
+	}
 }
 
 // c05SharedTLS: every store to a field of a *tls.Config in connect has a base that is a fresh clone; a parameter
